@@ -308,12 +308,42 @@ def encodeIcon (w : Nat) (m : Mesh) : Table :=
 
 abbrev Key := Int × Int
 
-/-- SCRIP: nodes are the sorted distinct corner coordinates, a face row is the rank of each
-    of its corners (`_replace_fill_values(unq_inv, -1, …)` changes nothing: ranks are ≥ 0). -/
+/-- SCRIP: nodes are the sorted distinct corner coordinates (`np.unique(axis=0)`). -/
 def scripNodes (corners : List (List Key)) : List Key := uniqPair corners.flatten
-def decodeScrip (corners : List (List Key)) : Table :=
+
+/-- AS IT STOOD in the snapshot: a face row is the rank of each of its corners
+    (`_replace_fill_values(unq_inv, -1, …)` changes nothing: ranks are ≥ 0), so a repeated
+    last corner is kept as a corner. -/
+def decodeScripAsIs (corners : List (List Key)) : Table :=
   let nodes := scripNodes corners
   corners.map (·.map (fun k => if rank nodes k = -1 then FILL else rank nodes k))
+
+/-- length of the trailing run of entries equal to the row's last entry
+    (`trailing = cumprod((unq_inv == unq_inv[:, -1:])[:, ::-1])[:, ::-1]`) -/
+def lastRun (r : List Int) : Nat :=
+  (r.reverse.takeWhile (fun x => x == r.getLastD 0)).length
+
+/-- `padding[:, 1:] = trailing[:, 1:] * trailing[:, :-1]`, `np.where(padding, -1, unq_inv)`:
+    every entry of the trailing run except its first one becomes `-1` -/
+def scripPad (r : List Int) : List Int :=
+  r.take (r.length - (lastRun r - 1)) ++ List.replicate (lastRun r - 1) (-1)
+
+/-- REPAIRED reader (commit "the SCRIP reader treats trailing repeats of a face's last corner
+    as padding"): ranks, trailing repeats of the last corner → `-1`, `-1 → FILL`. -/
+def decodeScrip (corners : List (List Key)) : Table :=
+  let nodes := scripNodes corners
+  corners.map (fun row => (scripPad (row.map (rank nodes))).map (fun x => if x = -1 then FILL else x))
+
+/-- a SCRIP row of width `w`: the face's corners, then its last corner repeated -/
+def encScripRow (w : Nat) (f : List Key) : List Key :=
+  f ++ List.replicate (w - f.length) (f.getLastD (0, 0))
+
+/-- the last two corners of a face are different positions (otherwise the source itself
+    cannot tell a corner from padding) -/
+def LastDistinct (f : List Key) : Bool :=
+  match f.reverse with
+  | a :: b :: _ => a != b
+  | _ => true
 
 def isFillKey (k : Key) : Bool := k.1 == FILL || k.2 == FILL
 
